@@ -65,6 +65,50 @@ def _min(e, c, a):
         if e.branch(x != 0): raise Unsupported('bitmap model: member beyond ng_nv')
     elif x != 0: raise Unsupported('bitmap model: member beyond ng_nv')
     return NONE()
+def subset(x, y):
+    if is_sym(x) or is_sym(y): return (bv(x) & ~bv(y)) == 0
+    return (x & ~y) == 0
+@lmodel('cmp::is_subset', 'inherent::is_subset')
+def _is_subset(e, c, a): return subset(deref(a[0]), deref(a[1]))
+@lmodel('cmp::is_superset', 'inherent::is_superset')
+def _is_superset(e, c, a): return subset(deref(a[1]), deref(a[0]))
+@lmodel('cmp::is_disjoint', 'inherent::is_disjoint')
+def _is_disjoint(e, c, a):
+    x, y = deref(a[0]), deref(a[1])
+    return ((bv(x) & bv(y)) == 0) if is_sym(x) or is_sym(y) else (x & y) == 0
+@lmodel('inherent::intersection_len', 'ops::intersection_len')
+def _ilen(e, c, a):
+    x, y = deref(a[0]), deref(a[1]); return popcount(e, (bv(x) & bv(y)) if is_sym(x) or is_sym(y) else x & y)
+@lmodel('inherent::union_len', 'ops::union_len')
+def _ulen(e, c, a):
+    x, y = deref(a[0]), deref(a[1]); return popcount(e, (bv(x) | bv(y)) if is_sym(x) or is_sym(y) else x | y)
+@lmodel('inherent::clear')
+def _clear(e, c, a): a[0].set(0); return UNIT
+@lmodel('inherent::max')
+def _max(e, c, a):
+    x = deref(a[0])
+    for i in range(nbits(e) - 1, -1, -1):
+        if e.branch(bit(x, i)): return Some(i)
+    return NONE()
+@lmodel('inherent::iter', '<&RoaringBitmap as IntoIterator>::into_iter', '<RoaringBitmap as IntoIterator>::into_iter')
+def _iter(e, c, a):
+    x = deref(a[0])
+    return it_list([i for i in range(nbits(e)) if e.branch(bit(x, i))])
+def assign_op(name, f):
+    def m(e, c, a):
+        r = a[0]; y = deref(a[1]); x = r.get()
+        r.set(z3.simplify(f(bv(x), bv(y))) if is_sym(x) or is_sym(y) else f(x, y)); return UNIT
+    m.model_name = 'roaring:' + name
+    LOCAL[name] = m
+assign_op('BitAndAssign::bitand_assign', lambda x, y: x & y); assign_op('BitOrAssign::bitor_assign', lambda x, y: x | y); assign_op('SubAssign::sub_assign', lambda x, y: x & ~y)
+def sub_op(e, c, a):
+    x, y = deref(a[0]), deref(a[1])
+    return z3.simplify(bv(x) & ~bv(y)) if is_sym(x) or is_sym(y) else x & ~y
+sub_op.model_name = 'roaring:sub'; LOCAL['Sub::sub'] = sub_op
+@lmodel('<RoaringBitmap as PartialEq>::eq')
+def _rb_eq(e, c, a):
+    x, y = deref(a[0]), deref(a[1])
+    return (bv(x) == bv(y)) if is_sym(x) or is_sym(y) else x == y
 @lmodel('<RoaringBitmap as Clone>::clone')
 def _clone(e, c, a): return deref(a[0])
 
